@@ -6,6 +6,13 @@ here="$(cd "$(dirname "$0")/.." && pwd)"
 scratch="$(mktemp -d /tmp/bklverif-selftest.XXXXXX)"
 trap 'rm -rf "$scratch"' EXIT
 rsync -a --exclude .git --exclude testdata /repo/ "$scratch/repo/"
+# a snapshot of the machinery as well (tool binary, spec, ledgers, findings; the solver cache is shared read-mostly):
+# the corpus takes an hour, and the results must not depend on what happens to /verif meanwhile
+snap="$scratch/verif"; mkdir -p "$snap/work"
+for d in bin spec ledger contracts selftest known-findings.jsonl assumed-obligations.jsonl properties.jsonl; do cp -a "$here/$d" "$snap/"; done
+cp -a "$here/work/cache" "$snap/work/" 2>/dev/null
+export VERIF_DIR="$snap"
+here_bin="$snap/bin/bklverif"
 fail=0; n=0
 for kind in mutants harmless; do
   for p in "$here"/selftest/$kind/*.patch; do
@@ -14,7 +21,7 @@ for kind in mutants harmless; do
     [ -n "$1" ] && [ "$1" != "$prop" ] && continue
     n=$((n+1))
     if ! patch -s -p1 -d "$scratch/repo" < "$p"; then echo "SELFTEST-BROKEN $b: patch does not apply"; fail=1; continue; fi
-    out="$(VERIF_REPO="$scratch/repo" "$here/bin/bklverif" check "$prop" quick 2>&1)"; rc=$?
+    out="$(VERIF_REPO="$scratch/repo" "$here_bin" check "$prop" quick 2>&1)"; rc=$?
     patch -s -R -p1 -d "$scratch/repo" < "$p"
     if [ $kind = mutants ]; then
       if [ $rc -eq 1 ] && echo "$out" | grep -q '^VIOLATION'; then echo "ok   caught  $b  ($(echo "$out" | grep -c '^VIOLATION') obligations)";
